@@ -208,7 +208,16 @@ func (p *Percentage) UnmarshalText(value []byte) error {
 // UnmarshalJSON ensures percentages will be parsed even if defined as
 // numbers in the source JSON.
 func (p *Percentage) UnmarshalJSON(value []byte) error {
-	return p.UnmarshalText(unquote(value))
+	if string(value) == "null" {
+		return nil
+	}
+	// only a bare null is empty, the quoted string "null" is not a number
+	result, err := PercentageFromString(string(unquote(value)))
+	if err != nil {
+		return err
+	}
+	*p = result
+	return nil
 }
 
 // JSONSchema provides a representation of the struct for usage in Schema.
